@@ -150,4 +150,36 @@ def gaussvol (args impl : List String) : Option (String × String) := do
     pure ("-", spec)
   | _ => none
 
+/-- `pipeline <rate hex> <jn> <jd> <dist hex> <cycles>` — the composed constant-rate pipeline on the real builders.
+impl: `<intervalNs> <calls> <total> <min> <max>` | `err`. Spec = the statement of `C12_C13_pipeline_total`:
+`|total − cycles·N| ≤ (a·N + 1/2 + 1/1000)/(1 − a)` with `a = jn/(100·jd) < 1`, every value non-negative, and the tick
+interval / number of calls of the distribution. -/
+def pipelineOp (args impl : List String) : Option (String × String) := do
+  match args with
+  | [r, jn, jd, d, c] =>
+    let r ← hexBytes r; let d ← hexBytes d
+    let jn ← jn.toNat?; let jd ← jd.toNat?; let c ← c.toNat?
+    let spec := match parseRate r, impl with
+      | .ok (cnt, unit), [iv, calls, total, mn, _mx] =>
+        match newDistribution d unit, iv.toInt?, calls.toNat?, total.toInt?, mn.toInt? with
+        | .ok iv', some ivI, some callsI, some tot, some mnI =>
+          let n : Int := if iv' < unit then unit / iv' else 1
+          let diff := (tot - (c : Int) * cnt).natAbs
+          if ivI ≠ iv' then "FAIL tick-interval-of-the-distributed-rate"
+          else if (callsI : Int) ≠ (c : Int) * n then "FAIL harness-calls"
+          else if mnI < 0 then "FAIL negative-value-requested"
+          else if jn < 100 * jd ∧ jd > 0 ∧ (diff : Int) * (10 * (100 * jd - jn)) > jn * cnt * 10 + 501 * jd then
+            s!"FAIL long-run-total-{tot}-not-within-the-carry-bound-of-{(c : Int) * cnt}"
+          else "ok"
+        | .err, _, _, _, _ => "FAIL invalid-distribution-accepted"
+        | _, _, _, _, _ => "FAIL unparsable-impl-output"
+      | .ok _, ["err"] => (match parseRate r with
+          | .ok (_, unit) => if newDistribution d unit = .err then "ok" else "FAIL valid-pipeline-refused"
+          | _ => "ok")
+      | _, ["err"] => "ok"
+      | _, t :: _ => if t.startsWith "crash" then "FAIL pipeline-crashes" else "FAIL malformed-rate-accepted"
+      | _, [] => "FAIL no-impl-output"
+    pure ("-", spec)
+  | _ => none
+
 end F1.Drive
